@@ -38,7 +38,11 @@ var c18TreeCfg = h.TreeCfg{
 }
 
 func genC18(t *rapid.T) *c18Case {
-	c := &c18Case{Tree: h.GenTree(t, c18TreeCfg, "t")}
+	cfg := c18TreeCfg
+	if rapid.IntRange(0, 7).Draw(t, "globnames") == 0 {
+		cfg.Names = append(append([]string{}, cfg.Names...), "q?", "l[1]", "x*", "what?")
+	}
+	c := &c18Case{Tree: h.GenTree(t, cfg, "t")}
 	n := rapid.IntRange(1, 4).Draw(t, "nreq")
 	for i := 0; i < n; i++ {
 		li := fmt.Sprintf("r%d.", i)
@@ -214,6 +218,14 @@ func c18Check(env *h.Env, c *c18Case) error {
 			return h.Infra(err)
 		}
 	}
+	// entries whose own name contains glob characters cannot be expressed as include
+	// patterns: for such trees only termination and the structural clauses are judged
+	globNames := false
+	for _, n := range c.Tree.Nodes {
+		if hasGlob(n.Path) {
+			globNames = true
+		}
+	}
 	cfs := &countingFS{fs: base, limit: 10000}
 	res, err := fsutil.FollowLinks(cfs, c.Requests)
 	if err != nil {
@@ -235,6 +247,10 @@ func c18Check(env *h.Env, c *c18Case) error {
 		if a == "." || a == "" || strings.HasPrefix(a, "/") {
 			return fmt.Errorf("FollowLinks(%q) = %q contains the root or an absolute element %q", c.Requests, res, a)
 		}
+	}
+	if globNames {
+		env.Class("glob-characters-in-names")
+		return nil
 	}
 	// obligations from the reference resolver
 	type oblig struct {
